@@ -58,10 +58,19 @@ ASSUMPTIONS = [
     "reversed row order",
 ]
 BOUNDS = {
-    "quick": "rank: base+<=3 candidates, 7 options/model, 6 candidate tuples; strictness: <=2 atoms over a reduced "
-             "operator menu; statistics: 3-4 rows x 2 parameters",
-    "thorough": "rank: base+<=3 over 16 tuples (full menu), base+4 (full menu, 3 tuples), base+5 (4 options/model); "
-                "strictness: <=2 atoms over the full operator menu; statistics: 3-6 rows",
+    "quick": "rank: base+3 candidates (1 tuple x 7 options/model, 5 tuples x 4 options/model), base+<=2 candidates "
+             "(6 tuples x 7 options/model), 39 rank configurations each; 4 strictness expressions x 7 status options on "
+             "base+2; bic mixed/fixed on base+1; create_results (best model, summary) on base+2 x 4 options; "
+             "strictness: all expressions with <=2 atoms over {<,>=} (1 atom: all 6 operators) x all profiles of the "
+             "fields read; criteria on 15 models, lrt functions on 12x11 model pairs x 8^2 ofvs x 3 alphas; statistics: "
+             "bootstrap 3 rows (all 816 multisets) + 1/8 of 4 rows + 12 tables of 7-50 rows, cdd 3 cases, eta tables "
+             "2-3 individuals, 810 delta-method cases",
+    "thorough": "rank: base+3 (16 tuples x 7 options/model), base+4 (3 tuples x 7 options), base+5 (4 tuples x 4 "
+                "options), base+7 (1 tuple x 3 options); strictness x status on base+2/base+3; bic mixed/fixed on "
+                "base+2 (7 tuples x 5 options); create_results on base+2 (6 tuples x 7 options); strictness: <=2 "
+                "atoms over all 6 operators (+ 3-atom samples) on 4 models; statistics: bootstrap 3-6 rows (all "
+                "multisets, 2 parameters) + 3 parameters x 3 rows (1/8) + 40 tables of 7-50 rows, cdd 3-5 cases x 4 "
+                "covariance matrices, eta tables 2-4 individuals, simeval 2-3 individuals x 3-4 samples",
 }
 
 NAN = float("nan")
@@ -245,7 +254,7 @@ STRICT_RANK = [
 CHEAP_TYPES = [("ofv", None), ("aic", None), ("bic", "random"), ("bic", "iiv")]
 CUTOFFS = [None, 0, 3.84]
 LRT_CUTOFFS = [None, 0.05, (0.05, 0.01)]
-PEN_VEC = [0.0, 2.0, -1.5, 3.84, 0.5, 1.0]
+PEN_VEC = [0.0, 2.0, -1.5, 3.84, 0.5, 1.0, -2.0, 0.25]
 
 
 def rank_configs(k, kinds, mode="rank"):
@@ -277,6 +286,8 @@ TUPLES3_MORE = [(0, 2, 8, 9), (0, 6, 7, 11), (6, 3, 0, 1), (7, 1, 0, 3), (10, 0,
                 (11, 3, 4, 0), (2, 0, 7, 3), (9, 0, 5, 4), (8, 0, 1, 10)]
 TUPLES4 = [(0, 1, 3, 4, 5), (3, 0, 6, 11, 1), (0, 2, 7, 10, 6)]
 TUPLES5 = [(0, 1, 3, 4, 5, 6), (3, 0, 6, 11, 1, 7), (0, 2, 8, 9, 10, 11), (1, 0, 7, 3, 10, 4)]
+TUPLES7 = [(0, 1, 3, 4, 5, 6, 7, 10)]
+OPT_TINY = [(0.0, "ok"), (3.84, "ok"), (NAN, "ok")]
 TUPLES_BIC = [(0, 1, 3), (0, 4, 5), (3, 6, 0), (12, 13, 14), (0, 2, 8), (0, 9, 10), (7, 1, 11)]
 
 
@@ -399,7 +410,7 @@ def _viol(res, w):
 
 def _rank_shard(res, shard):
     _, tup, lead, menu_name, kinds_name, strictnesses, mode = shard
-    menu = {"full": OPT_FULL, "small": OPT_SMALL, "strict": OPT_STRICT, "bic": OPT_BIC}[menu_name]
+    menu = {"full": OPT_FULL, "small": OPT_SMALL, "strict": OPT_STRICT, "bic": OPT_BIC, "tiny": OPT_TINY}[menu_name]
     kinds = {"cheap": CHEAP_TYPES, "bic": [("bic", "mixed"), ("bic", "fixed")], "all": CHEAP_TYPES + [("bic", "mixed")]}[kinds_name]
     tup = tuple(tup)
     k = len(tup) - 1
@@ -538,8 +549,12 @@ def strict_class(expr, prof, cls):
 def _strict_shard(res, shard, tier):
     _, lo, hi = shard
     exprs = strictness_expressions(tier)[lo:hi]
-    models = STRICT_MODELS if tier == "thorough" else STRICT_MODELS[:2]
-    for expr in exprs:
+    n1 = 5 * len(atoms(tier, False))  # the 1-atom expressions come first
+    for k, expr in enumerate(exprs):
+        if tier == "thorough":
+            models = STRICT_MODELS
+        else:  # quick: 1-atom expressions on two models, 2-atom expressions alternate between them
+            models = STRICT_MODELS[:2] if lo + k < n1 else [STRICT_MODELS[(lo + k) % 2]]
         res["states"] += 1
         compared = False
         for prof in profiles_for(expr):
@@ -757,6 +772,11 @@ IOFV = [1.0, 2.0, -0.5, 0.25]
 
 def row_multisets(p, n):
     return itertools.combinations_with_replacement(list(itertools.product(ALPHA, repeat=p)), n)
+
+
+def big_table(n, a, b):
+    """deterministic larger replicate table over the alphabet (row i depends on i only)"""
+    return [(ALPHA[(a * i) % 4], ALPHA[(b * i + i // 4) % 4]) for i in range(n)]
 
 
 def _cmp(fails, cls, label, got, want, **kw):
@@ -1112,6 +1132,26 @@ def _chunks(seq, nchunks, i):
     return [x for j, x in enumerate(seq) if j % nchunks == i]
 
 
+def _weight(shard):
+    """rough relative cost of a shard (only used to schedule heavy shards first)"""
+    k = shard[0]
+    if k == "rank":
+        _, tup, lead, menu, kinds, strictnesses, mode = shard
+        nm = {"full": 7, "small": 4, "strict": 7, "bic": 5, "tiny": 3}[menu]
+        n = nm ** (len(tup) - len(lead)) * len(strictnesses)
+        per = {"cheap": 60, "bic": 2500, "all": 2500}[kinds] * (12 if mode == "best" else 1)
+        return n * per
+    if k == "strict":
+        return 2000 * (shard[2] - shard[1])
+    if k == "boot":
+        return 50000
+    if k == "cdd":
+        return 300000
+    if k in ("shrink", "ishrink", "simeval"):
+        return 500000
+    return 100000
+
+
 def stat_shards(tier):
     out = []
     if tier == "quick":
@@ -1122,20 +1162,21 @@ def stat_shards(tier):
         for i in range(6):
             out.append(("cdd", 3, 6, i))
         out.append(("shrink", 0, (2, 3)))
-        out.append(("shrink", 9, (2, 3)))
+        out.append(("shrink", 9, (2,)))
         out.append(("shrink", 5, (2,)))
     else:
-        for n, nch in ((3, 8), (4, 32), (5, 64), (6, 160)):
+        for n, nch in ((3, 4), (4, 16), (5, 32), (6, 80)):
             for i in range(nch):
                 out.append(("boot", 2, n, nch, i))
-        for i in range(64):
-            out.append(("boot", 3, 3, 64 * 8, i * 8))
-        for n, nch in ((3, 6), (4, 24), (5, 48)):
+        for i in range(32):
+            out.append(("boot", 3, 3, 32 * 8, i * 8))
+        for n, nch in ((3, 4), (4, 12), (5, 24)):
             for i in range(nch):
                 out.append(("cdd", n, nch, i))
         for ci in (0, 9, 5):
             out.append(("shrink", ci, (2, 3, 4)))
         out.append(("shrink", 6, (2,)))
+    out.append(("bootbig",))
     out.append(("ishrink",))
     out.append(("delta",))
     out.append(("simeval",))
@@ -1176,12 +1217,23 @@ def _stat_shard(res, shard, tier):
             fails, ncmp = run_boot_case(rows, variant)
             _stat_case(res, "boot", fails, ncmp, {"kind": "boot", "rows": [list(r) for r in rows], "variant": list(variant)},
                        f"bootstrap replicates {[list(r) for r in rows]} variant(orig,incl,dofv,patched,reversed)={variant}")
+    elif kind == "bootbig":
+        idx = 0
+        for n in ((7, 10, 50) if tier == "quick" else (7, 10, 25, 49, 50)):
+            for a in ((1, 3) if tier == "quick" else (1, 2, 3, 5)):
+                for b in (1, 2):
+                    rows = big_table(n, a, b)
+                    variant = BOOT_VARIANTS[idx % len(BOOT_VARIANTS)] + (idx % 4 != 1, False)
+                    idx += 1
+                    fails, ncmp = run_boot_case(rows, variant)
+                    _stat_case(res, "boot", fails, ncmp, {"kind": "boot", "rows": [list(r) for r in rows], "variant": list(variant)},
+                               f"bootstrap {n} replicates, arithmetic family a={a} b={b}: {[list(r) for r in rows[:6]]}... variant={variant}")
     elif kind == "cdd":
         _, n, nch, ci = shard
         for idx, rows in enumerate(row_multisets(2, n)):
             if idx % nch != ci:
                 continue
-            for covi in ((idx % 4, (idx + 1) % 4) if tier == "quick" else range(4)):
+            for covi in ((idx % 4,) if tier == "quick" else range(4)):
                 cv = CDD_VARIANTS[(idx + covi) % len(CDD_VARIANTS)]
                 variant = cv + (idx % 2 == 1,)
                 fails, ncmp = run_cdd_case(rows, covi, variant)
@@ -1271,13 +1323,13 @@ def shards(tier):
     # --- ranking
     if tier == "quick":
         t3 = TUPLES3_QUICK
-        for tup in t3[:2]:
+        for tup in t3[:1]:
             for o in OPT_FULL:
                 out.append(("rank", tup, (o,), "full", "cheap", ("minimization_successful",), "rank"))
-        for tup in t3[2:]:
+        for tup in t3[1:]:
             for o in OPT_SMALL:
                 out.append(("rank", tup, (o,), "small", "cheap", ("minimization_successful",), "rank"))
-        for tup in t3[:2]:
+        for tup in t3[1:2]:
             for o in OPT_STRICT:
                 out.append(("rank", tup[:3], (o,), "strict", "cheap", tuple(STRICT_RANK[:3]), "rank"))
         for tup in TUPLES_BIC[:4]:
@@ -1292,29 +1344,34 @@ def shards(tier):
                 out.append(("rank", tup, (o,), "full", "cheap", ("minimization_successful",), "rank"))
         for tup in TUPLES4:
             for o in OPT_FULL:
-                for o2 in OPT_FULL:
-                    out.append(("rank", tup, (o, o2), "full", "cheap", ("minimization_successful",), "rank"))
+                out.append(("rank", tup, (o,), "full", "cheap", ("minimization_successful",), "rank"))
         for tup in TUPLES5:
             for o in OPT_SMALL:
-                for o2 in OPT_SMALL:
-                    out.append(("rank", tup, (o, o2), "small", "cheap", ("minimization_successful",), "rank"))
+                out.append(("rank", tup, (o,), "small", "cheap", ("minimization_successful",), "rank"))
+        for tup in TUPLES7:
+            for o in OPT_TINY:
+                for o2 in OPT_TINY:
+                    out.append(("rank", tup, (o, o2), "tiny", "cheap", ("minimization_successful",), "rank"))
         for tup in TUPLES3_QUICK:
             for o in OPT_STRICT:
-                out.append(("rank", tup, (o,), "strict", "cheap", tuple(STRICT_RANK), "rank"))
+                out.append(("rank", tup[:3], (o,), "strict", "cheap", tuple(STRICT_RANK), "rank"))
+        for o in OPT_STRICT:
+            out.append(("rank", TUPLES3_QUICK[1], (o,), "strict", "cheap", tuple(STRICT_RANK), "rank"))
         for tup in TUPLES_BIC:
             for o in OPT_BIC:
                 out.append(("rank", tup, (o,), "bic", "bic", ("minimization_successful",), "rank"))
-        for tup in TUPLES3_QUICK + TUPLES3_MORE[:4]:
+        for tup in TUPLES3_QUICK:
             for o in OPT_FULL:
-                out.append(("rank", tup[:3], (o,), "full", "cheap", ("minimization_successful", DEFAULT_STRICT), "best"))
+                out.append(("rank", tup[:3], (o,), "full", "cheap", ("minimization_successful",), "best"))
     # k = 0, 1, 2 (small sets, full menu)
-    for tup in (TUPLES3_QUICK if tier == "quick" else TUPLES3_QUICK + TUPLES3_MORE):
+    for j, tup in enumerate(TUPLES3_QUICK if tier == "quick" else TUPLES3_QUICK + TUPLES3_MORE):
         out.append(("rank", tup[:1], (), "full", "cheap", ("minimization_successful",), "rank"))
         out.append(("rank", tup[:2], (), "full", "cheap", ("minimization_successful", ""), "rank"))
-        out.append(("rank", tup[:3], (), "full", "cheap", ("minimization_successful",), "rank"))
+        if tier != "quick" or j % 2 == 1:
+            out.append(("rank", tup[:3], (), "full", "cheap", ("minimization_successful",), "rank"))
     # --- strictness expressions
     n = len(strictness_expressions(tier))
-    step = 150 if tier == "quick" else 400
+    step = 150 if tier == "quick" else 1000
     for lo in range(0, n, step):
         out.append(("strict", lo, min(n, lo + step)))
     # --- scalars
@@ -1324,6 +1381,7 @@ def shards(tier):
     for pi in (0, 3, 7):
         out.append(("crit", "bom", pi))
     out += stat_shards(tier)
+    out.sort(key=_weight, reverse=True)  # heavy shards first (stable)
     only = os.environ.get("VERIF_C19_ONLY")  # debugging aid (mutant runs): comma separated shard kinds
     if only:
         keep = set(only.split(","))
